@@ -39,6 +39,7 @@ func (matcher *requestResponseMatcher) registerRequest(key string, request *Requ
 		}
 	}
 
+	verifYield("kafka.registerRequest.store")
 	matcher.openMessagesMap.Store(key, request)
 	return nil
 }
@@ -53,6 +54,7 @@ func (matcher *requestResponseMatcher) registerResponse(key string, response *Re
 		if request, found := matcher.openMessagesMap.LoadAndDelete(key); found {
 			return matcher.preparePair(request.(*Request), response)
 		}
+		verifYield("kafka.registerResponse.poll")
 		time.Sleep(1 * time.Millisecond)
 	}
 }
